@@ -228,7 +228,7 @@ def run(chk):
     ok_proof, info = vlib.proof_stage(chk, PROPS, MODULE, const_areas=("Refs",), pins_rel="pins/C08.v")
     c08_exe, mx = build(chk)
     rng = vlib.Rng(chk.seed * 1000003 + 8)
-    n_hist = 40 if chk.tier == "quick" else 300
+    n_hist = 36 if chk.tier == "quick" else 300
     cases = load_corpus()
     ncorpus = len(cases)
     for i in range(n_hist):
@@ -270,7 +270,7 @@ def run(chk):
 
     chk.coverage.update({
         "evaluations": len(cases), "distinct_nontrivial": len(shapes),
-        "rule": "random single-stepped histories under 4 option sets (one of them cuts compaction outputs where earlier files were cut, so setsums are re-created): puts/deletes, flushes, 1..40 compaction steps, reopens, snapshots and scan cursors held across retirements and released later, a reader's release placed between a compaction's hard_link and its manifest edit (hook), complete verifier passes, verifier passes in their own process killed before their j-th unlink (strace), store processes killed at their j-th rename; corpus first; non-trivial = at least 2 flushes, 1 merging/GC compaction and 1 snapshot or verifier pass; distinct = distinct op lists",
+        "rule": "random single-stepped histories under 5 option sets (one of them cuts compaction outputs where earlier files were cut, so setsums are re-created): puts/deletes, flushes, 1..40 compaction steps, reopens, snapshots and scan cursors held across retirements and released later, a reader's release placed between a compaction's hard_link and its manifest edit (hook), phases separated by pairs of reopens with the manifest rolling over on open only (re-created setsums stay in the live MANIFEST while the verifier reads older fragments), complete verifier passes, verifier passes in their own process killed before their j-th unlink (strace), store processes killed at their j-th rename; corpus first; non-trivial = at least 2 flushes, 1 merging/GC compaction and 1 snapshot or verifier pass; distinct = distinct op lists",
         "samples": [cases[ncorpus][2][:14] if len(cases) > ncorpus else [], cases[-1][2][:14]],
         "input_distribution": totals, "corpus_cases": ncorpus, "option_sets": sorted(OPTION_SETS),
         "traces_validated_against_impl": len(cases) - len(mach_bad),
@@ -287,6 +287,7 @@ def run(chk):
         ],
     })
     chk.assumptions = [
+        "direct oracle for the verifier by incarnation: an sst it unlinks must not be added again by an edit it has not verified (later fragment on disk or the live MANIFEST), except inside the known class K-verifier-by-name (re-created while the recorded intent named it)",
         "the setsum of a memtable's sst is fresh: no compaction in flight produces it (an acceptance condition of the model's EFlush / ECompact events)",
         "Manifest::apply is atomic and durable (property C13); I/O faults other than process death are outside the model",
         "file contents and the selector are outside this model (C01, C05, C10, C20); names are what matters here",
